@@ -2121,7 +2121,7 @@ class Speed(Quantity['Speed']):
                      'in/hr': 'inch per hour', 'in/hour': 'inch per hour',
                      'ft/s': 'foot per second',
                      'ft/sec': 'foot per second',
-                     'ft/min': 'inch per minute', 'ft/h': 'foot per hour',
+                     'ft/min': 'foot per minute', 'ft/h': 'foot per hour',
                      'ft/hr': 'foot per hour', 'ft/hour': 'foot per hour',
                      'mi/s': 'mile per second',
                      'mi/sec': 'mile per second',
